@@ -124,6 +124,25 @@ pub fn compare_pub<R: std::io::Read + std::io::Seek>(prop: &str, mode: &str, fam
             }
         }
     }
+    // the same reader asked again backwards: a lookup must not depend on earlier lookups
+    if ok && !m.offsets_only {
+        for (id, e) in exp.iter() {
+            for k in (1..=e.len() as u32).rev() {
+                l.transitions += 2;
+                let x = &e[k as usize - 1];
+                let want_off = anchors[&x.anchor].1 + x.rel;
+                let off = guard(|| r.sample_offset(*id, k));
+                let got = read_one(r, *id, k);
+                // durations that fall through to the movie level are judged (and tagged) in the forward pass only
+                let same = matches!(&off, Ok(Ok(o)) if *o == want_off) && matches!(&got, Got::Some(g) if g.bytes == x.bytes && g.start == x.start && g.off == x.cts);
+                if !same {
+                    ok = false;
+                    l.violations.push(Violation::new(prop, "lookup_depends_on_earlier_lookups", case()).obs(json!({"track": id, "sample": k, "offset": format!("{:?}", off.map(|r| r.map_err(|e| e.to_string()))), "got": got.to_json()})).exp(json!({"offset": want_off, "start": x.start, "off": x.cts})));
+                    break;
+                }
+            }
+        }
+    }
     ok
 }
 
